@@ -98,7 +98,29 @@ def check_pipeline(site, build, data_fn, seed, viol, case):
         shutil.rmtree(tmpd, ignore_errors=True)
 
 
+def doc_vs_objects(obj, node, path='pipeline'):
+    """the serialized document against the live objects: every node records the p (and a leaf the always_apply) its
+    own object was constructed with"""
+    out = []
+    if not isinstance(node, dict):
+        return out
+    if 'p' in node and hasattr(obj, 'p') and float(node['p']) != float(obj.p):
+        out.append('%s: p recorded as %r, the object has %r' % (path, node['p'], obj.p))
+    if 'always_apply' in node and hasattr(obj, 'always_apply') and bool(node['always_apply']) != bool(obj.always_apply):
+        out.append('%s: always_apply recorded as %r, the object has %r' % (path, node['always_apply'], obj.always_apply))
+    kids = getattr(obj, 'transforms', None)
+    if isinstance(node.get('transforms'), list) and kids is not None and not isinstance(kids, dict):
+        for i, (k, kn) in enumerate(zip(kids, node['transforms'])):
+            out += doc_vs_objects(k, kn, '%s/%s[%d]' % (path, type(k).__name__, i))
+    return out
+
+
 def _check_carriers(site, pipe, doc, carriers, data_fn, seed, viol, case):
+    bad = doc_vs_objects(pipe, doc.get('transform', {}))
+    if bad:
+        viol.append({'site': site + ':document-vs-arguments', 'case': case, 'carrier': 'to_dict', 'observed': bad[:3],
+                     'expected': 'the arguments the objects were constructed with'})
+        return
     for carrier, load_it in carriers:
         try:
             pipe2 = load_it()
@@ -194,7 +216,8 @@ def run(seed=0, tier='quick', hints=None, broken=False):
         kpk = dict(format=rng.choice(['xyz', 'xyza', 'xyzas', 'zyx']), remove_invisible=rng.random() < 0.5,
                    angle_in_degrees=rng.random() < 0.5, check_each_transform=rng.random() < 0.5,
                    label_fields=rng.choice([None, ['kl']]))
-        tree = rng.choice(['flat', 'oneof', 'someof', 'nested'])
+        tree = ['flat', 'oneof', 'someof', 'nested', 'oneof-always', 'someof-always'][i % 6] if tier == 'quick' else \
+            rng.choice(['flat', 'oneof', 'someof', 'nested', 'oneof-always', 'someof-always'])
         case = {'bbox_params': dict(vals, format=fmt, check_each_transform=each), 'keypoint_params': kpk, 'tree': tree}
 
         def build(vals=vals, fmt=fmt, each=each, kpk=kpk, tree=tree):
@@ -204,6 +227,13 @@ def run(seed=0, tier='quick', hints=None, broken=False):
             elif tree == 'someof':
                 inner = [A.SomeOf([A.HorizontalFlip(p=0.3), A.VerticalFlip(p=0.7), A.SliceFlip(p=1)], n=2, replace=False, p=0.9),
                          A.Crop(2, 1, 0, 9, 9, 4, p=1.0)]
+            elif tree == 'oneof-always':
+                # always-apply children keep their own p: it is their selection weight inside OneOf / SomeOf
+                inner = [A.OneOf([A.HorizontalFlip(always_apply=True, p=0.1), A.VerticalFlip(p=0.9), A.SliceFlip(always_apply=True, p=0.3)], p=1.0),
+                         A.Crop(2, 1, 0, 9, 9, 4, p=1.0)]
+            elif tree == 'someof-always':
+                inner = [A.SomeOf([A.HorizontalFlip(always_apply=True, p=0.05), A.VerticalFlip(p=0.9), A.SliceFlip(p=0.5)], n=1, p=1.0),
+                         A.Crop(2, 1, 0, 9, 9, 4, always_apply=True, p=0.2)]
             elif tree == 'nested':
                 inner = [A.Sequential([A.OneOrOther(A.HorizontalFlip(p=1), A.Transpose(p=1), p=0.4)], p=1.0),
                          A.Compose([A.Crop(2, 1, 0, 9, 9, 4, p=1.0)], p=0.8)]
